@@ -23,6 +23,7 @@ import (
 	"sync"
 
 	"github.com/fsnotify/fsnotify"
+	"github.com/wi1dcard/fingerproxy/pkg/vhook"
 )
 
 var (
@@ -137,6 +138,7 @@ func (cw *CertWatcher) ReadCertificate() error {
 		return err
 	}
 
+	vhook.Point("certwatcher.ReadCertificate.beforeSwap", cw)
 	cw.Lock()
 	cw.currentCert = &cert
 	cw.Unlock()
@@ -147,6 +149,7 @@ func (cw *CertWatcher) ReadCertificate() error {
 }
 
 func (cw *CertWatcher) handleEvent(event fsnotify.Event) {
+	vhook.Point("certwatcher.handleEvent", cw)
 	// Only care about events which may modify the contents of the file.
 	if !(isWrite(event) || isRemove(event) || isCreate(event)) {
 		return
